@@ -75,7 +75,7 @@ def valid_value(rng, func, kw, ctxd):
             "dev": [0, 8], "pre_release_num": [0, 3], "bump_major": [0, 1, 2], "bump_minor": [0, 1], "bump_patch": [0, 3], "bump_post": [0, 1], "bump_dev": [0, 2],
             "bump_pre_release_num": [0, 1], "bump_epoch": [0, 1], "hash_branch_len": [1, 5, 9]}
     strs = {"source": ["none", "stdin"], "input_format": ["auto", "semver", "pep440"], "output_format": ["semver", "pep440", "zerv"],
-            "output_template": ["{{ semver }}", "v{{ major }}", "x"], "output_prefix": ["v", "release-", ""],
+            "output_template": ["{{ semver }}", "v{{ major }}", "x", "{{ dev }}", "", "{{ epoch }}{{ post }}", "  {{ major }}  "], "output_prefix": ["v", "release-", ""],
             "schema": ["standard", "standard-base", "standard-context"] + ([] if func == "flow" else ["calver", "calver-base-context"]),
             "schema_ron": ["(core:[var(Major), var(Minor)], extra_core:[], build:[])"], "tag_version": ["1.2.3", "v2.0.0-rc.1", "1.0a1"],
             "bumped_branch": ["main", "feature/x", ""], "bumped_commit_hash": ["gabcdef123", "0000000"],
@@ -281,6 +281,25 @@ def run(ctx):
                 else:
                     repo.clean()
         repo.clean()
+        # relative repo_path values: resolved once, against the caller's working directory, like `zerv -C`
+        top = os.path.dirname(repo.path)
+        os.makedirs(os.path.join(repo.path, "pkg", "sub"), exist_ok=True)
+        here = os.getcwd()
+        try:
+            for cwd, rel in ((top, "repo"), (top, "./repo"), (repo.path, "."), (os.path.join(repo.path, "pkg"), ".."), (os.path.join(repo.path, "pkg", "sub"), "../.."),
+                             (os.path.dirname(top), os.path.join(os.path.basename(top), "repo"))):
+                for fn in ("version", "flow"):
+                    os.chdir(cwd)
+                    kwargs = {"repo_path": rel}
+                    res = call(z, fn, None, kwargs)
+                    iargv, istdin = assemble(fn, None, kwargs, {})
+                    r = core.run_zerv(ctx.bins, iargv, stdin=istdin, env=env, cwd=cwd)
+                    ctx.evaluations += 2
+                    ctx.count("relative_repo_path_calls")
+                    _compare(ctx, res, r, dict(kind="relative-repo-path", func=fn, cwd=cwd, repo_path=rel), iargv)
+        finally:
+            os.chdir(here)
+        shutil.rmtree(os.path.join(repo.path, "pkg"), ignore_errors=True)
         # a failing command raises
         for func, pos, kwargs in (("version", None, {"source": "none"}), ("check", "not a version", {"format": "semver"}), ("render", "1.2", {"input_format": "semver"}),
                                   ("flow", None, {"source": "none", "tag_version": "1.2.3", "hash_branch_len": 0}), ("version", None, {"source": "none", "tag_version": "x.y.z"})):
